@@ -124,7 +124,9 @@ Fixpoint parse_use_deps (fuel : nat) (s : bytes) : ures :=
     if negb (is_useflag_char (peek s1)) then UErr else
     let '(flag, s2) := span is_useflag_char s1 in
     let c2 := peek s2 in
-    let '(suffix, s3) := if is 61 c2 || is 63 c2 then (bn c2, tl s2) else (0, s2) in
+    (* the suffix may stand before the default, flag=(+), or after it, flag(+)= (PMS) *)
+    let suffix_first := is 61 c2 || is 63 c2 in
+    let '(suffix1, s3) := if suffix_first then (bn c2, tl s2) else (0, s2) in
     let dflt :=
       if is 40 (peek s3) && is 41 (peek2 s3) then
         (if is 43 (peek1 s3) then Some (1, tl (tl (tl s3)))
@@ -134,13 +136,16 @@ Fixpoint parse_use_deps (fuel : nat) (s : bytes) : ures :=
     match dflt with
     | None => UErr
     | Some (d, s4) =>
+      let c4 := peek s4 in
+      let '(suffix, s5) :=
+        if negb suffix_first && (is 61 c4 || is 63 c4) then (bn c4, tl s4) else (suffix1, s4) in
       match use_type prefix suffix with
       | None => UErr
       | Some tp =>
         let dep := MkUse tp d flag in
-        if is 0 (peek s4) then UOk [dep]
-        else if negb (is 44 (peek s4)) then UErr
-        else match parse_use_deps f (tl s4) with
+        if is 0 (peek s5) then UOk [dep]
+        else if negb (is 44 (peek s5)) then UErr
+        else match parse_use_deps f (tl s5) with
              | UOk l => UOk (dep :: l)
              | e => e
              end
@@ -159,17 +164,46 @@ Fixpoint scan_nums (s : bytes) : bytes * bytes :=
     else ([], s)
   end.
 
+(* (?:_(?:alpha|beta|pre|rc|p)\d* )+ : the length of the suffix name the text starts with, in the
+   order of the alternation ("pre" before "p"; after "_p" no letter can follow, so the
+   first alternative that matches is the only one that can lead to a match) *)
+Definition kind_len (s : bytes) : option nat :=
+  if prefixb (bs "alpha") s then Some 5%nat
+  else if prefixb (bs "beta") s then Some 4%nat
+  else if prefixb (bs "pre") s then Some 3%nat
+  else if prefixb (bs "rc") s then Some 2%nat
+  else if prefixb (bs "p") s then Some 1%nat
+  else None.
+(* one walk over the suffixes: [skip] letters of a recognised suffix name are still to be
+   passed; [insuf] = a suffix name has been passed, so digits may follow *)
+Fixpoint suf_walk (skip : nat) (insuf : bool) (s : bytes) : bytes * bytes :=
+  match s with
+  | [] => ([], [])
+  | c :: r =>
+    match skip with
+    | S k => let '(a, b) := suf_walk k true r in (c :: a, b)
+    | O =>
+      if is 95 c then
+        match kind_len r with
+        | Some n => let '(a, b) := suf_walk n true r in (c :: a, b)
+        | None => ([], s)
+        end
+      else if insuf && is_digit c then let '(a, b) := suf_walk O true r in (c :: a, b)
+      else ([], s)
+    end
+  end.
+
 Record vertail := MkVT { vt_ver : bytes; vt_suf : bytes; vt_rev : bytes; vt_glob : bool }.
 
-(* (\d+(?:\.\d+)*[a-z]?)(_\w+)?(?:-(r\d+))?(\*?)$ -- every part is deterministic: what
-   follows a greedy part can never start with a character that part accepts *)
+(* the version part of pkgVerRE (source text pinned as PA_pkgVerRE): numbers, optional letter,
+   optional PMS suffixes, optional -r revision, optional star, end of text -- every part is
+   deterministic: what follows a greedy part can never start with a character that part
+   accepts *)
 Definition ver_tail (s : bytes) : option vertail :=
   if negb (is_digit (peek s)) then None else
   let '(nums, r1) := scan_nums s in
   let '(letter, r2) := if is_lower (peek r1) then ([peek r1], tl r1) else ([], r1) in
-  let '(suf, r3) :=
-    if is 95 (peek r2) && is_word (peek1 r2)
-    then let '(w, r) := span is_word (tl r2) in (peek r2 :: w, r) else ([], r2) in
+  let '(suf, r3) := suf_walk O false r2 in
   let '(rev, r4) :=
     if is 45 (peek r3) && is 114 (peek1 r3) && is_digit (peek2 r3)
     then let '(d, r) := span is_digit (tl (tl r3)) in (peek1 r3 :: d, r) else ([], r3) in
